@@ -212,7 +212,7 @@ func TestC29(t *testing.T) {
 	r := ev.New("C29", "exploration",
 		"queries over finite generated JSON inputs that exercise every concurrent part - the JSON parser worker pool (files of up to 9000 lines = many 64-line batches, more batches than channel tokens), stream / outer / lookup joins and a group-by above a join (two input goroutines), LIKE and regexp predicates evaluated from both join branches (shared pattern caches), subquery expressions, the stdin reader - ending normally, early because of LIMIT, or in an error (malformed row, failing expression, error on one join side), in all output modes, "+
 			"run with the race-detector build of the real binary under GOMAXPROCS in {1,2,4,16} and with seeded pseudo-random delays in the JSON workers (hook VERIF_JSON_DELAY_SEED) so parse batches complete out of order; oracle: no 'WARNING: DATA RACE' report and the process ends within the cap; on a timeout a SIGQUIT dump decides: every goroutine parked = deadlock violation, otherwise inconclusive. "+
-			"join_stops_while_other_input_is_parked (in-process, the real join nodes over harness-owned inputs and consumer): one input of 100..25000 records of one key (the join's input queues hold 10000 messages), the other of 0-3 records; the join is stopped by a failing consumer (how LIMIT and downstream errors arrive), by a failing input, or not at all, and the failure is injected only once the big input stands still (ended, or parked on the full queue); oracle: Run returns (with an error when something failed); it is called stuck only when it has not returned and neither input has moved for 15 s. "+
+			"join_stops_while_other_input_is_parked (in-process, the real join nodes over harness-owned inputs and consumer): one input of 100..25000 records of one key (the join's input queues hold 10000 messages), the other of 0-3 records; the join is stopped by a failing consumer (how LIMIT and downstream errors arrive), by a failing input, or not at all, and the failure is injected only once the big input stands still (ended, or parked on the full queue); oracle: Run returns (with an error when something failed); it is called stuck only when it has not returned and neither input has moved for 45 s. "+
 			"non-trivial: more than one goroutine worked (more than one JSON batch, or a join) and the query ended early or in error (in-process: the other input was parked on the full queue when the join was stopped). distinct = case",
 		"schedule sampling only: absence of races is not shown; the in-process join schedule enumeration of C19 runs without the race detector")
 	ev.Check(t, r, "race_build_cli", ev.N(300, 10000), func(t *rapid.T) c29Case {
